@@ -70,7 +70,7 @@ def strategy(ctx, shard=0):
 
 
 def budget(ctx):
-    return dict(max_examples=ctx.pick(1600, 20000), shards=16)
+    return dict(max_examples=ctx.pick(1600, 60000), shards=16)
 
 
 def warmup():
